@@ -501,6 +501,12 @@ impl MasterSession {
             return Err(TaskError::RejectedByIin2(response.header.iin));
         }
 
+        // a response whose object headers cannot be parsed never completes a task successfully,
+        // even if the task itself does not look at the objects
+        if let Err(err) = response.objects {
+            return Err(TaskError::MalformedResponse(err));
+        }
+
         Ok(Some(response))
     }
 
